@@ -201,6 +201,10 @@ def _shrink_c20(best, attempt, budget):
             incs[i]["write_fault"] = False
             attempt(variant(incs))
         incs = copy.deepcopy(best["trace"]["incarnations"])
+        if incs[i].get("pyflags"):
+            incs[i]["pyflags"] = []
+            attempt(variant(incs))
+        incs = copy.deepcopy(best["trace"]["incarnations"])
         if incs[i].get("hashseed"):
             incs[i]["hashseed"] = 0
             attempt(variant(incs))
